@@ -32,7 +32,7 @@ DISPATCH = {
 def run(ctx):
     fx = ctx.fx
     spec = SP.load_spec()
-    ctx.rules = ['L1 layout', 'L2 read->field', 'L3 field->getter', 'O1 no reordering', 'O2 frame table', 'O3 chunk dispatch',
+    ctx.rules = ['L0 reader primitives', 'L1 layout', 'L2 read->field', 'L3 field->getter', 'O1 no reordering', 'O2 frame table', 'O3 chunk dispatch',
                  'O4 lookups and iteration']
     ctx.assumptions.append('tables/spec_layout.json transcribes the Aseprite file-format specification correctly')
     ctx.explanation = (
@@ -46,6 +46,44 @@ def run(ctx):
         'frame durations are stored/read at the frame\'s own index, every chunk code reaches the decoder of its kind on its '
         'own payload, name lookups scan forward. Decides widths, signedness, order, optionality and wiring for all inputs; '
         'does not decide that values survive std (UTF-8 decoding) or HashMap contents.')
+    # ---------------- L0: the reader primitives themselves (width, signedness, endianness, STRING = WORD length + bytes)
+    PRIM = {'byte': ('read_u8', None), 'word': ('read_u16', 'LittleEndian'), 'short': ('read_i16', 'LittleEndian'),
+            'dword': ('read_u32', 'LittleEndian'), 'long': ('read_i32', 'LittleEndian')}
+    for k, (bo, endian) in PRIM.items():
+        pb = ctx.anchor(common.READER + k, 'reader primitive')
+        if pb is None:
+            continue
+        cs = [c for c in q.calls(pb) if c.callee.startswith('byteorder::ReadBytesExt::')]
+        ok = len(cs) == 1 and cs[0].callee.endswith('::' + bo) and is_param_path(q.arg_terms(cs[0])[0], 1, ['input']) and \
+            (endian is None or any(endian in a for a in cs[0].fn.get('args', [])))
+        t = res(pb).ok_ret()
+        ok = ok and t[0] == 'call' and t[1].endswith(bo)
+        ctx.inst('L0', 'reader.' + k, ok, '%s() = %s%s on self.input, returned unchanged; must be %s %s' % (
+            k, [c.callee.split('::')[-1] for c in cs], [a for c in cs for a in c.fn.get('args', []) if 'Endian' in a], bo, endian or ''),
+            pb.span, key=pb.name + '|L0')
+    sb_ = ctx.anchor(common.READER + 'string', 'reader primitive')
+    if sb_ is not None:
+        cs = [c for c in q.calls(sb_) if c.callee.startswith(('byteorder::', 'std::io::Read::'))]
+        names = [c.callee.split('::')[-1] for c in cs]
+        ok = names == ['read_u16', 'read_exact'] and any('LittleEndian' in a for a in cs[0].fn.get('args', []))
+        if ok:
+            buf = q.arg_terms(cs[1])[1]
+            ln = buf[2][1] if buf[0] == 'call' and buf[1].endswith('from_elem') else None
+            ok = ln is not None and strip_casts(ln)[0] == 'call' and strip_casts(ln)[3] == (sb_.name, cs[0].bb) and \
+                all(layout.value_preserving(a, b_) for a, b_ in q.casts_on(ln)[0])
+            t = res(sb_).ok_ret()
+            ok = ok and t[0] == 'call' and t[1] == 'std::string::String::from_utf8' and t[2][0] == buf
+        ctx.inst('L0', 'reader.string', ok, 'string() reads %s; must be a little-endian WORD length, exactly that many bytes, String::from_utf8 of them'
+                 % names, sb_.span, key=sb_.name + '|L0')
+    sk = ctx.anchor(common.READER + 'skip_reserved', 'reader primitive')
+    if sk is not None:
+        cs = [c for c in q.calls(sk) if c.callee == 'std::io::Read::read_exact']
+        ok = len(cs) == 1
+        if ok:
+            buf = q.arg_terms(cs[0])[1]
+            ok = buf[0] == 'call' and buf[1].endswith('from_elem') and is_param(buf[2][1], 2)
+        ctx.inst('L0', 'reader.skip_reserved', ok, 'skip_reserved(n) consumes exactly n bytes with read_exact', sk.span, key=sk.name + '|L0')
+
     bindings = {}
     spans = {}
     for fn, sname in spec['decoders'].items():
